@@ -571,7 +571,7 @@ fn main() {
     for case in &cases {
         let rs = dispatch!(case;
             (1, 1, Inv, U1, U1), (1, 3, Inv, U1, U3),
-            (2, 2, Inv, U2, U2),
+            (2, 2, Inv, U2, U2), (2, 7, Inv, U2, U7),
             (3, 4, Unrel, U3, U4),
             (5, 3, Inv, U5, U3),
             (8, 1, Inv, U8, U1), (8, 5, Unrel, U8, U5),
